@@ -80,6 +80,80 @@ def run_case(c):
     return None, o
 
 
+NAMED = ("g1", "g2", "t1", "t2", "t3")
+
+
+def scaled_gtf(cases, picks):
+    """a GTF of thousands of lines: block k is case picks[k] with its gene and transcript ids suffixed _k.  Gene / transcript inference is per id and the
+    blocks' id spaces are disjoint, so the expectation is the union of the blocks' expectations (only the auto-numbered keys of exon/CDS lines depend on
+    the other blocks: those features are compared by (type, seqid, strand, start, end) and as relation targets by that signature)."""
+    import re
+    lines, named, others, rels = [], {}, [], []
+    for k, ci in enumerate(picks):
+        c = cases[ci]
+        suf = "_%d" % k
+        for t in c["texts"]:
+            lines.append(re.sub(r'"(g\d|t\d)"', lambda m: '"%s%s"' % (m.group(1), suf), dec(t)))
+        sig = {}
+        for f in c["view"]["feats"]:
+            i = dec(f["id"])
+            rec = (dec(f["ftype"]), dec(f["seqid"]), dec(f["strand"]), f["start"], f["end"])
+            if i in NAMED:
+                named[i + suf] = rec
+                sig[i] = i + suf
+            else:
+                others.append(rec)
+                sig[i] = rec
+        for r in c["view"]["rels"]:
+            pa, ch = dec(r[0]), dec(r[1])
+            if pa in sig and ch in sig:
+                rels.append((sig[pa], sig[ch], r[2]))
+    return lines, named, sorted(others), sorted(map(repr, rels))
+
+
+def run_scaled(lines, named, others, rels, path):
+    import gffutils
+    import re
+    try:
+        with dbio.quiet(), warnings.catch_warnings():
+            warnings.simplefilter("ignore")
+            db = gffutils.create_db("\n".join(lines) + "\n", path, from_string=True, force=True)
+        db.conn.close()
+        db = gffutils.FeatureDB(path)
+        gn, go, sig = {}, [], {}
+        for f in db.all_features():
+            rec = (f.featuretype, f.seqid, f.strand, f.start, f.end)
+            if re.match(r"^[gt]\d_\d+$", f.id):
+                if f.id in gn:
+                    return "scaled:duplicate_key", {"id": f.id}
+                gn[f.id] = rec
+                sig[f.id] = f.id
+            else:
+                go.append(rec)
+                sig[f.id] = rec
+        if set(gn) != set(named):
+            return "scaled:feature_keys", {"missing": sorted(set(named) - set(gn))[:5], "unexpected": sorted(set(gn) - set(named))[:5], "n_lines": len(lines)}
+        for i in named:
+            if gn[i] != named[i]:
+                return "scaled:extent_or_type:" + i, {"observed": gn[i], "expected": named[i]}
+        if sorted(go) != others:
+            return "scaled:line_features", {"stored": len(go), "expected": len(others)}
+        rows = db.conn.execute("SELECT parent, child, level FROM relations").fetchall()
+        self_rel = [r for r in rows if r[0] == r[1]]
+        if self_rel:
+            return "scaled:self_relation", {"rows": [list(r) for r in self_rel[:5]]}
+        got = sorted(repr((sig[p], sig[c], l)) for p, c, l in rows if p in sig and c in sig)
+        if got != rels:
+            return "scaled:relations", {"rows": len(got), "expected": len(rels)}
+        db.conn.close()
+        return None, None
+    except Exception as e:  # noqa
+        return "scaled:raised:" + type(e).__name__, {"message": str(e)[:200]}
+    finally:
+        if os.path.exists(path):
+            os.unlink(path)
+
+
 def nontrivial(c):
     m = c["sel"]
     explicit = any(x in (7, 8, 9) for x in m)
@@ -123,6 +197,21 @@ def run(ctx):
     ctx.traces += len(cases)
     ctx.sample({"file": [dec(t) for t in cases[-1]["texts"]], "variant": cases[-1]["v"],
                 "expected_features": [[dec(f["id"]), dec(f["ftype"]), f["start"], f["end"]] for f in cases[-1]["view"]["feats"]]})
+    # D4: scale - more than a thousand lines without any explicit gene/transcript line, then blocks that have them
+    dflt = [k for k, c in enumerate(cases) if not (c["v"]["noT"] or c["v"]["noG"] or c["v"]["custom"]) and c["st"] == "ok"]
+    plain = [k for k in dflt if not any(x in (7, 8, 9) for x in cases[k]["sel"])]
+    expl = [k for k in dflt if any(x in (7, 8, 9) for x in cases[k]["sel"])]
+    for rep in range(3 if thorough else 1):
+        picks = [ctx.rng.choice(plain) for _ in range(600)] + [ctx.rng.choice(expl) for _ in range(300)] + [ctx.rng.choice(dflt) for _ in range(1500 if thorough else 100)]
+        while sum(len(cases[k]["texts"]) for k in picks[:600]) < 1100:
+            picks.insert(0, ctx.rng.choice(plain))
+        lines, named, others, rels = scaled_gtf(cases, picks)
+        bad, detail = run_scaled(lines, named, others, rels, ctx.path("c03_scaled_%d.db" % rep))
+        if bad:
+            ctx.violation({"scaled_picks": [[cases[k]["sel"], cases[k]["v"]] for k in picks], "n_lines": len(lines), "first_lines": lines[:4]}, bad, detail)
+        ctx.count(("scaled", len(lines), rep), True)
+        ctx.traces += 1
+        ctx.extra["scaled_gtf_lines"] = len(lines)
     # D3: the repository's GTF files go through the same import; only the clauses that hold for every GTF are judged
     data = os.path.join(core.REPO, "gffutils", "test", "data")
     import gffutils
@@ -130,37 +219,60 @@ def run(ctx):
         p = os.path.join(data, fn)
         if not os.path.exists(p):
             continue
-        try:
-            with dbio.quiet(), warnings.catch_warnings():
-                warnings.simplefilter("ignore")
-                db = gffutils.create_db(p, ":memory:", merge_strategy="create_unique", disable_infer_genes=False, disable_infer_transcripts=False)
-        except Exception as e:  # noqa
-            ctx.assumptions.append("data file %s could not be imported for the D3 pass (%s)" % (fn, type(e).__name__))
+        found = data_file_clauses(p, fn)
+        if found is None:
+            ctx.assumptions.append("data file %s could not be imported for the D3 pass" % fn)
             continue
-        rows = dbio.rel_rows(db.conn)
-        selfrel = [r for r in rows if r[0] == r[1]]
-        if selfrel:
-            ctx.violation({"data_file": fn}, "self_relation", {"rows": [[dec(r[0]), dec(r[1]), r[2]] for r in selfrel[:5]]})
-        # derived transcripts span exactly their exons
-        for t in db.features_of_type("transcript"):
-            if t.source != "gffutils_derived":
-                continue
-            ex = list(db.children(t, level=1, featuretype="exon"))
-            if ex and (t.start != min(e.start for e in ex) or t.end != max(e.end for e in ex)):
-                ctx.violation({"data_file": fn, "transcript": t.id}, "extent_or_type:" + t.id, None)
+        for case, clause, detail in found:
+            ctx.violation(case, clause, detail)
         ctx.count(("d3", fn), True)
         ctx.traces += 1
     ctx.assumptions += ["every GTF line of the model carries both the gene and the transcript key (as the GTF specification requires)",
                         "an explicit transcript line is allowed to be a level-2 child of its gene in addition to level 1 (the statement only forbids self relations)"]
 
 
+def data_file_clauses(p, fn):
+    """the clauses of C03 that hold for EVERY GTF, on one of the repository's data files; None if the file cannot be imported at all"""
+    import gffutils
+    try:
+        with dbio.quiet(), warnings.catch_warnings():
+            warnings.simplefilter("ignore")
+            db = gffutils.create_db(p, ":memory:", merge_strategy="create_unique", disable_infer_genes=False, disable_infer_transcripts=False)
+    except Exception:  # noqa
+        return None
+    out = []
+    rows = dbio.rel_rows(db.conn)
+    selfrel = [r for r in rows if r[0] == r[1]]
+    if selfrel:
+        out.append(({"data_file": fn}, "self_relation", {"rows": [[dec(r[0]), dec(r[1]), r[2]] for r in selfrel[:5]]}))
+    # derived transcripts span exactly their exons
+    for t in db.features_of_type("transcript"):
+        if t.source != "gffutils_derived":
+            continue
+        ex = list(db.children(t, level=1, featuretype="exon"))
+        if ex and (t.start != min(e.start for e in ex) or t.end != max(e.end for e in ex)):
+            out.append(({"data_file": fn, "transcript": t.id}, "extent_or_type:" + t.id, None))
+    return out
+
+
 def replay(ctx, rec):
     c = rec["case"]
+    if "data_file" in c:
+        found = data_file_clauses(os.path.join(core.REPO, "gffutils", "test", "data", c["data_file"]), c["data_file"])
+        return bool(found)
+    if "scaled_picks" in c:
+        mc = ctx.tlc("MC_DB03", MC_CFG % (5 if rec.get("tier") == "thorough" else 4, ""), label="recompute block expectations")
+        seen = {}
+        for j in mc.json:
+            seen[(tuple(j["sel"]), key(j["v"]))] = j
+        blocks = [seen[(tuple(sel), key(v))] for sel, v in c["scaled_picks"]]
+        lines, named, others, rels = scaled_gtf(blocks, list(range(len(blocks))))
+        return run_scaled(lines, named, others, rels, ctx.path("c03_scaled_replay.db"))[0] is not None
     if "lines" not in c:
-        return True
+        raise core.CannotReplay("no executable case in this replay file")
     # the expectation is recomputed by model checking the bounded instance and looking the case up
     mc = ctx.tlc("MC_DB03", MC_CFG % (max(3, len(c["lines"])), ""), label="recompute expectation")
     for j in mc.json:
         if [dec(t) for t in j["texts"]] == c["lines"] and j["v"] == c["variant"]:
             return run_case(j)[0] is not None
-    return True
+    raise core.CannotReplay("the case could not be reconstructed from the model")
